@@ -5,6 +5,7 @@ package sync
 
 import (
 	rsync "sync"
+	"sync/atomic"
 
 	"verif.local/simrt"
 )
@@ -96,6 +97,7 @@ func ctx() (*simrt.Sim, *simrt.Task) {
 
 type Mutex struct {
 	real   rsync.Mutex
+	held   int32 // outside a simulation: 1 while the real mutex is held (misuse is reported by a panic, not a runtime abort)
 	locked bool
 	owner  *simrt.Task
 }
@@ -106,9 +108,11 @@ func (m *Mutex) Lock() {
 		if SingleGoroutine && !m.real.TryLock() {
 			panic(SelfDeadlock{"Mutex.Lock"})
 		} else if SingleGoroutine {
+			atomic.StoreInt32(&m.held, 1)
 			return
 		}
 		m.real.Lock()
+		atomic.StoreInt32(&m.held, 1)
 		return
 	}
 	if t == nil {
@@ -129,7 +133,11 @@ func (m *Mutex) Lock() {
 func (m *Mutex) TryLock() bool {
 	s, t := ctx()
 	if s == nil {
-		return m.real.TryLock()
+		if m.real.TryLock() {
+			atomic.StoreInt32(&m.held, 1)
+			return true
+		}
+		return false
 	}
 	if m.locked {
 		return false
@@ -148,8 +156,7 @@ func (m *Mutex) Unlock() {
 		// outside a simulation the shim is the real mutex; the misuse that the runtime answers with an unrecoverable
 		// "fatal error" is turned into an ordinary panic where it can be seen without a side effect (nobody holds the lock),
 		// so that a sequential harness can report it instead of losing the whole worker process
-		if m.real.TryLock() {
-			m.real.Unlock()
+		if !atomic.CompareAndSwapInt32(&m.held, 1, 0) {
 			panic(Fatal("sync: unlock of unlocked mutex"))
 		}
 		m.real.Unlock()
@@ -172,6 +179,8 @@ func (m *Mutex) Unlock() {
 
 type RWMutex struct {
 	real rsync.RWMutex
+	// outside a simulation: the state of the real lock, so that misuse is reported by a panic instead of a runtime abort
+	heldW, heldR int32
 
 	wOwner   bool // the writer-side mutex "w" is held (a writer is pending or active)
 	wTask    *simrt.Task
@@ -188,9 +197,11 @@ func (rw *RWMutex) RLock() {
 		if SingleGoroutine && !rw.real.TryRLock() {
 			panic(SelfDeadlock{"RWMutex.RLock"})
 		} else if SingleGoroutine {
+			atomic.AddInt32(&rw.heldR, 1)
 			return
 		}
 		rw.real.RLock()
+		atomic.AddInt32(&rw.heldR, 1)
 		return
 	}
 	if t == nil {
@@ -213,7 +224,11 @@ func (rw *RWMutex) RLock() {
 func (rw *RWMutex) TryRLock() bool {
 	s, _ := ctx()
 	if s == nil {
-		return rw.real.TryRLock()
+		if rw.real.TryRLock() {
+			atomic.AddInt32(&rw.heldR, 1)
+			return true
+		}
+		return false
 	}
 	if rw.announce {
 		return false
@@ -225,8 +240,8 @@ func (rw *RWMutex) TryRLock() bool {
 func (rw *RWMutex) RUnlock() {
 	s, t := ctx()
 	if s == nil {
-		if rw.real.TryLock() {
-			rw.real.Unlock()
+		if atomic.AddInt32(&rw.heldR, -1) < 0 {
+			atomic.AddInt32(&rw.heldR, 1)
 			panic(Fatal("sync: RUnlock of unlocked RWMutex"))
 		}
 		rw.real.RUnlock()
@@ -247,9 +262,11 @@ func (rw *RWMutex) Lock() {
 		if SingleGoroutine && !rw.real.TryLock() {
 			panic(SelfDeadlock{"RWMutex.Lock"})
 		} else if SingleGoroutine {
+			atomic.StoreInt32(&rw.heldW, 1)
 			return
 		}
 		rw.real.Lock()
+		atomic.StoreInt32(&rw.heldW, 1)
 		return
 	}
 	if t == nil {
@@ -273,7 +290,11 @@ func (rw *RWMutex) Lock() {
 func (rw *RWMutex) TryLock() bool {
 	s, t := ctx()
 	if s == nil {
-		return rw.real.TryLock()
+		if rw.real.TryLock() {
+			atomic.StoreInt32(&rw.heldW, 1)
+			return true
+		}
+		return false
 	}
 	if rw.wOwner || rw.readers > 0 {
 		return false
@@ -288,8 +309,7 @@ func (rw *RWMutex) TryLock() bool {
 func (rw *RWMutex) Unlock() {
 	s, t := ctx()
 	if s == nil {
-		if rw.real.TryLock() {
-			rw.real.Unlock()
+		if !atomic.CompareAndSwapInt32(&rw.heldW, 1, 0) {
 			panic(Fatal("sync: Unlock of unlocked RWMutex"))
 		}
 		rw.real.Unlock()
